@@ -9,10 +9,12 @@ CONSTANTS
   CachePutBeforeDbWrite = FALSE
   BulkVersionsUsesEpoch = TRUE
   FillPolicy = "if_same_generation"
+  FlushIgnoresCleanFlag = TRUE
   Export = FALSE
   MaxSteps = 4
   WithReads = FALSE
   SplitReads = FALSE
+  WithExt = FALSE
 INIT MCInit
 NEXT MCNext
 VIEW View
